@@ -31,11 +31,14 @@ CONSTANTS MaxSteps,  \* macro-steps before the finish step
           Coins,     \* coins offered to bursts (subset of BOOLEAN)
           AdvAdv,    \* BOOLEAN: may an advance follow an advance
           WithDisable, \* BOOLEAN: offer NoBreakerFor
-          IntegKinds \* {} = core mode; otherwise the integration table mode (see IBurst)
+          IntegKinds \* {} = core mode; otherwise the integration table mode (see IBurst1/IBurst2)
 
 VARIABLES hist, fin
 
 gvars == <<vars, hist, fin>>
+
+\* decided once (TLC evaluates constant definitions at start-up), not per state
+IntegMode == IntegKinds # {}
 
 KindAt(seq, rot, i) == seq[((rot + i - 1) % Len(seq)) + 1]
 
@@ -101,7 +104,7 @@ Consults(b, e, n) ==
   \E s \in {Succ(b.win)}, t \in {Total(b.win)} : \E i \in 1..n : RejAt(b.mode = "google", s, t, e, i)
 
 Burst(nm, e, n, coin, rot0, par) ==
-  /\ IntegKinds = {}
+  /\ ~IntegMode
   \* a coin nobody consults is not a choice: generate it once (as the first coin offered)
   /\ (Consults(Touch(st[nm]), e, n) \/ par \/ coin = (TRUE \in Coins))
   /\ BurstWith(nm, IF e = 1 THEN SuccSeq ELSE FailSeq, e, n, coin, rot0 + 5 * Len(hist), par)
@@ -115,18 +118,18 @@ CanonFail(api) ==
     [] api \in GrpcApis -> Kd(api, "Internal", 13)
     [] OTHER            -> Kd(api, "other", 0)
 
-FirstKind == hist[1].calls[1].k
+FirstKind == LET c == hist[1].calls[1] IN Kd(c[1], c[2], c[3])
 
 IBurst1(nm, k, n) ==
-  /\ IntegKinds # {} /\ hist = <<>>
+  /\ IntegMode /\ hist = <<>>
   /\ BurstWith(nm, <<k>>, Effect(k), n, FALSE, 0, FALSE)
 
 IBurst2(nm) ==
-  /\ IntegKinds # {} /\ hist # <<>>
+  /\ IntegMode /\ hist # <<>>
   /\ st[nm].mode = "google"
   /\ BurstWith(nm, <<FirstKind>>, Effect(FirstKind), 2, TRUE, 0, FALSE)
 
-ProbeSeq == IF IntegKinds = {} THEN FailSeq ELSE <<CanonFail(FirstKind.api)>>
+ProbeSeq == IF ~IntegMode THEN FailSeq ELSE <<CanonFail(FirstKind.api)>>
 
 Adv(d) ==
   /\ ~fin /\ Len(hist) < MaxSteps
@@ -166,9 +169,9 @@ Finish ==
   /\ UNCHANGED st
 
 GNext ==
-  \/ \E nm \in Names, e \in {0, 1}, n \in Ns, coin \in Coins, rot0 \in Rots : Burst(nm, e, n, coin, rot0, FALSE)
-  \/ \E nm \in Names, e \in {0, 1}, n \in ParNs : Burst(nm, e, n, FALSE, 0, TRUE)
-  \/ \E nm \in Names, k \in IntegKinds, n \in Ns : IBurst1(nm, k, n)
+  \/ (~IntegMode /\ \E nm \in Names, e \in {0, 1}, n \in Ns, coin \in Coins, rot0 \in Rots : Burst(nm, e, n, coin, rot0, FALSE))
+  \/ (~IntegMode /\ \E nm \in Names, e \in {0, 1}, n \in ParNs : Burst(nm, e, n, FALSE, 0, TRUE))
+  \/ (IntegMode /\ hist = <<>> /\ \E nm \in Names, k \in IntegKinds, n \in Ns : IBurst1(nm, k, n))
   \/ \E nm \in Names : IBurst2(nm)
   \/ \E d \in Ds : Adv(d)
   \/ \E nm \in RegNames : Dis(nm)
